@@ -1,0 +1,9 @@
+//go:build !verif
+
+// Package verifhook provides crash-point markers for the external verification harness.
+//
+// Without the `verif` build tag (this file) every function is an empty, inlineable no-op.
+package verifhook
+
+// Crash marks a crash point between two durable writes. It does nothing in regular builds.
+func Crash(string) {}
